@@ -96,6 +96,9 @@ func (s *Scn) Key() string {
 	if s.lfArmed != nil && s.lfArmed() {
 		lf = " lf=" + s.lfMode
 	}
+	if s.rfArmed != "" {
+		lf += " rf=" + s.rfArmed
+	}
 	return lf + fmt.Sprintf("ls=%v/%v%v%v%v app=%v tx=%v rd=%v cur=%s ss=%v,%v,%v,%d wal=%d/%d/%d/%d/%v db=%d fl=%v loc=%s rem=%s",
 		s.LSOpen, sq, fo, rtx, opened, s.AppUp, s.InTx, s.InRd, cursor,
 		ss.TruncatePassiveFailed, ss.SyncedSinceCheckpoint, ss.SyncedToWALEnd, (ss.LastSyncedWALOffset-32)/fs,
